@@ -852,6 +852,11 @@ def readEntry (K : Classes) (fs : FS) (entryDir : List Char) (st : MState) (entr
         | none => (st1, .error .parse)
         | some ss => ({ st1 with visited := st1.visited ++ [entry] }, .ok (sectionsToMap ss))
 
+/-- only the include VALUE is a pattern: the characters `filepath.Match` interprets are quoted in
+the entry directory (fix c17-entry-dir-glob-metacharacters) -/
+def quoteGlobMeta (p : List Char) : List Char :=
+  p.flatMap fun c => if c = '*' ∨ c = '?' ∨ c = '[' ∨ c = '\\' then ['\\', c] else [c]
+
 /-- the glob patterns of the `include` section -/
 def includePatterns (entryDir : List Char) : List AItem → Except MErr (List (List Char))
   | [] => .ok []
@@ -861,7 +866,7 @@ def includePatterns (entryDir : List Char) : List AItem → Except MErr (List (L
     | some next =>
       match includePatterns entryDir rest with
       | .error e => .error e
-      | .ok ps => .ok ((if isAbsPath next then next else joinPath entryDir next) :: ps)
+      | .ok ps => .ok ((if isAbsPath next then next else joinPath (quoteGlobMeta entryDir) next) :: ps)
 
 /-- files of one glob result kept by `unsqueezeEntries` (`os.Stat`, no open) -/
 def keepFiles (fs : FS) : List (List Char) → Except MErr (List (List Char))
